@@ -37,6 +37,8 @@ FIXED_TRUSTED = [
     "distance between decimal literals and binary64 values are outside the theorems and covered "
     "by tolerance comparison on the explored inputs",
     "numpy/scipy/pandas/lmfit/matplotlib are modelled by explicit contracts, not verified",
+    "no extraction is used (the executable model runs inside Coq); coqchk -o is a separate tool (tools/coqchk_all.sh, "
+    "coqchk_summary.txt), not part of this run",
 ]
 
 
